@@ -33,7 +33,7 @@ def digitChar : Nat → Char
 
 /-- decimal digits of a natural number -/
 def natDigits (n : Nat) : List Char :=
-  if h : n < 10 then [digitChar n] else natDigits (n / 10) ++ [digitChar (n % 10)]
+  if _h : n < 10 then [digitChar n] else natDigits (n / 10) ++ [digitChar (n % 10)]
 termination_by n
 decreasing_by omega
 
